@@ -100,6 +100,68 @@ def index_of(prop):
     return [l.strip() for l in open(p) if l.strip() and not l.startswith("#")]
 
 
+# Source tie (harness/srcgen.py, lean/SMV/Src): which source-derived scripts each property's theorems rest on.
+# The theorems of SMV/Src/Tie.lean named in the property's index say that the *expected* scripts mean the
+# engine model; `source_tie` regenerates the scripts from the tree under test and has the kernel decide
+# `Gen.x = Expected.x`.
+SRC_TIE = {
+    "C01": ["triggerSync", "triggerAsync"],
+    "C02": ["activateSync", "activateAsync"],
+    "C03": ["processSync", "processAsync"],
+    "C04": ["activateSync", "activateAsync", "processSync", "processAsync"],
+    "C05": ["activateSync", "activateAsync", "triggerSync", "triggerAsync", "processSync", "processAsync"],
+    "C11": ["triggerSync", "triggerAsync"],
+    "C14": ["activateSync", "activateAsync"],
+}
+TIE_MOD = "SMV.Src.Tie"
+
+
+def source_tie(ctx: Ctx):
+    """-> list of failures ("srctie:<script>:<why>"); fills ctx.coverage["source_tie"]"""
+    import srcgen
+    names = SRC_TIE.get(ctx.prop, [])
+    if not names:
+        return []
+    repo = os.environ.get("VERIF_REPO", "/repo")
+    res = srcgen.translate(repo)
+    exp = srcgen.expected_terms()
+    failed, rows = [], {}
+    gen = os.path.join(ctx.out, "SrcTie.lean")
+    thms = []
+    with open(gen, "w") as f:
+        f.write(f"import {TIE_MOD}\n" + srcgen.lean_defs({k: v for k, v in res.items() if k in names}, "SMV.Src.Gen"))
+        f.write("namespace SMV.Src\n")
+        for n in names:
+            ty, term, err = res[n]
+            if term is not None:
+                f.write(f"theorem tie_{n} : Gen.{n} = Expected.{n} := by decide\n")
+                thms.append(n)
+        f.write("end SMV.Src\n" + "".join(f"#print axioms SMV.Src.tie_{n}\n" for n in thms))
+    a = subprocess.run(["lake", "env", "lean", gen], cwd=LEAN, capture_output=True, text=True)
+    txt = a.stdout + a.stderr
+    for n in names:
+        ty, term, err = res[n]
+        if term is None:
+            rows[n] = "untranslatable"
+            failed.append(f"srctie:{n}:the source could not be translated: {err}")
+            continue
+        ok = re.search(r"'SMV\.Src\.tie_" + n + r"' (does not depend on any axioms|depends on axioms: \[([^\]]*)\])", txt)
+        if ok and not (set(x.strip() for x in (ok.group(2) or "").split(",") if x.strip()) - ALLOWED_AXIOMS) \
+                and not re.search(r"error.*tie_" + n + r"\b", txt):
+            same = exp.get(n, (None, None))[1] == term
+            rows[n] = "same" if same else "same (kernel), text differs"
+            if not re.search(rf"SrcTie\.lean:\d+:\d+: error", txt) or same:
+                continue
+        rows[n] = "differs"
+        failed.append(f"srctie:{n}:the script derived from the source is not the one the theorems were proved for\n"
+                      f"--- expected\n{exp.get(n, (None, '<none>'))[1]}\n--- derived from {repo}\n{term}")
+    if a.returncode != 0 and not failed:
+        failed.append("srctie:lean:" + txt[-800:])
+    ctx.coverage["source_tie"] = dict(scripts=rows, translator="harness/srcgen.py",
+                                      checker_cmd=f"lake env lean <Gen.x = Expected.x by decide for {names}>")
+    return failed
+
+
 def lean_obligations(ctx: Ctx, modules=None):
     """Build the property module, audit axioms of every indexed theorem, grep forbidden tokens.
     Returns dict(obligations, discharged, failed, checker_cmd)."""
@@ -108,14 +170,16 @@ def lean_obligations(ctx: Ctx, modules=None):
     mod = f"SMV.Props.{prop}"
     failed = []
     t = time.time()
-    b = subprocess.run(["lake", "build", mod, "driver"], cwd=LEAN, capture_output=True, text=True)
+    mods = [mod] + ([TIE_MOD] if prop in SRC_TIE else [])
+    b = subprocess.run(["lake", "build", *mods, "driver"], cwd=LEAN, capture_output=True, text=True)
     if b.returncode != 0:
         failed.append("build:" + (b.stdout + b.stderr)[-1500:])
     axioms = {}
     if not failed:
+        failed += source_tie(ctx)
         audit = os.path.join(ctx.out, "Audit.lean")
         with open(audit, "w") as f:
-            f.write(f"import {mod}\n" + "".join(f"#print axioms {n}\n" for n in names))
+            f.write("".join(f"import {m}\n" for m in mods) + "".join(f"#print axioms {n}\n" for n in names))
         a = subprocess.run(["lake", "env", "lean", audit], cwd=LEAN, capture_output=True, text=True)
         txt = a.stdout + a.stderr
         if a.returncode != 0:
@@ -129,7 +193,7 @@ def lean_obligations(ctx: Ctx, modules=None):
             else:
                 failed.append(f"no-axiom-report:{n}")
     # forbidden tokens in every source file the property module (transitively) imports
-    for path in _import_closure(mod):
+    for path in sorted({p for m in mods for p in _import_closure(m)}):
         src = _strip_comments(open(path).read())
         for pat in FORBIDDEN:
             if re.search(pat, src, flags=re.M):
